@@ -404,6 +404,17 @@ class LinAI:
             for other in list(env.values()) + [va, vb]:
                 cands.add(_normalise(Lin.var(s) - other))
                 cands.add(_normalise(other - Lin.var(s)))
+        # ... and to sums of two environment values (`end <= buffer + capacity` when the two sides reached it differently)
+        vals_ = []
+        for v_ in env.values():
+            if v_ not in vals_ and len(v_.c) <= 1:
+                vals_.append(v_)
+        if len(vals_) <= 12:
+            for s, va, vb in newsyms:
+                for i_ in range(len(vals_)):
+                    for j_ in range(i_ + 1, len(vals_)):
+                        t_ = vals_[i_] + vals_[j_]
+                        cands.add(_normalise(t_ - Lin.var(s)))
         # a fact about the old value of a joined location, restated for the joined symbol (`start + n <= buf + cap` on one side,
         # `start == buf` on the other: the restated fact holds on both)
         for side_cons, idx in ((ca, 1), (cb, 2)):
